@@ -168,6 +168,20 @@ def set_alias(flag):
     ALIAS = bool(flag)
 
 
+HELD_ASSIGN = False  # swarm knob: the agent's held item is assigned after construction
+NUMPY_COORDS = False  # swarm knob: agent positions carry numpy integer coordinates
+
+
+def set_held_assign(flag):
+    global HELD_ASSIGN
+    HELD_ASSIGN = bool(flag)
+
+
+def set_numpy_coords(flag):
+    global NUMPY_COORDS
+    NUMPY_COORDS = bool(flag)
+
+
 DOOR_ASSIGN = False  # swarm knob: doors are constructed with another status, then assigned the wanted one
 _door_cycle = 0
 
@@ -223,7 +237,19 @@ def mk_state(world):
     else:
         grid = Grid([[mk(c) for c in row] for row in world['cells']])
     y, x, o, held = world['agent']
-    agent = Agent(Position(y, x), Orientation[o], mk(held))
+    if NUMPY_COORDS:
+        # positions with numpy integer coordinates (what `rng.integers` hands the library's own reset functions)
+        import numpy as np
+
+        pos = Position(np.int64(y), np.int64(x))
+    else:
+        pos = Position(y, x)
+    if HELD_ASSIGN:
+        # the held item arrives by attribute assignment (as `pickndrop` does it), not through the constructor
+        agent = Agent(pos, Orientation[o])
+        agent.grid_object = mk(held)
+    else:
+        agent = Agent(pos, Orientation[o], mk(held))
     return State(grid, agent)
 
 
